@@ -166,6 +166,10 @@ impl<'a> Lower<'a> {
         for (i, table) in self.children.iter().enumerate() {
             for (j, a_entry) in table.iter().enumerate() {
                 let start = FrameId(TreeId(i).as_frame().0 + HugeId(j).as_frame().0);
+                if start.as_huge().0 >= self.bitfields.len() {
+                    // Not part of the memory range (partial last tree)
+                    break;
+                }
                 let entry = a_entry.load();
 
                 if entry.huge() {
